@@ -59,6 +59,10 @@ type Node struct {
 	Unschedulable bool              `json:"unschedulable,omitempty"`
 	Ext           map[string]int    `json:"ext,omitempty"` // extended resources incl. MIG instances
 	MigStrategy   string            `json:"migStrategy,omitempty"`
+	// hostile worlds
+	NoLabels  bool              `json:"noLabels,omitempty"`  // strip every label (incl. hostname, gpu.count)
+	RawLabels map[string]string `json:"rawLabels,omitempty"` // applied last, may overwrite nvidia.com/gpu.count etc.
+	NoStatus  bool              `json:"noStatus,omitempty"`  // no conditions at all
 }
 
 type QRes struct {
@@ -78,6 +82,9 @@ type Queue struct {
 	ReclaimMinRuntime *int   `json:"reclaimMinRuntimeSec,omitempty"`
 	CreatedMin        int    `json:"createdMin,omitempty"` // minutes before "now"
 	NilResources      bool   `json:"nilResources,omitempty"`
+	// Raw overrides of resource numbers that JSON cannot carry ("NaN", "+Inf", "-Inf", "1e308"): keys
+	// "gpu.quota", "gpu.limit", "gpu.weight", "cpu.quota", ... parsed with strconv.ParseFloat at build time.
+	Raw map[string]string `json:"raw,omitempty"`
 }
 
 type TopoConstraint struct {
@@ -299,7 +306,15 @@ func (w *World) Build(now time.Time) *Objects {
 	for _, grp := range grps {
 		o.Pods = append(o.Pods, BuildReservationPod(grp, reservations[grp], now))
 	}
+	haveBR := map[string]bool{}
+	for _, br := range o.BindRequests {
+		haveBR[br.Name] = true
+	}
 	for _, rb := range w.ExtraBindRequests {
+		if haveBR[rb.Pod] {
+			continue // object names are unique in the API
+		}
+		haveBR[rb.Pod] = true
 		o.BindRequests = append(o.BindRequests, &schedulingv1alpha2.BindRequest{
 			ObjectMeta: metav1.ObjectMeta{Name: rb.Pod, Namespace: Namespace, Labels: map[string]string{"selected-node": rb.Node}},
 			Spec:       schedulingv1alpha2.BindRequestSpec{PodName: rb.Pod, SelectedNode: rb.Node},
@@ -336,6 +351,12 @@ func BuildNode(n *Node) *v1.Node {
 	for k, v := range n.Ext {
 		alloc[v1.ResourceName(k)] = qty(int64(v))
 	}
+	if n.NoLabels {
+		labels = map[string]string{}
+	}
+	for k, v := range n.RawLabels {
+		labels[k] = v
+	}
 	node := &v1.Node{
 		ObjectMeta: metav1.ObjectMeta{Name: n.Name, Labels: labels, UID: types.UID("node-" + n.Name)},
 		Spec:       v1.NodeSpec{Unschedulable: n.Unschedulable},
@@ -349,6 +370,9 @@ func BuildNode(n *Node) *v1.Node {
 		ready = v1.ConditionFalse
 	}
 	node.Status.Conditions = []v1.NodeCondition{{Type: v1.NodeReady, Status: ready}}
+	if n.NoStatus {
+		node.Status.Conditions = nil
+	}
 	return node
 }
 
@@ -363,6 +387,32 @@ func BuildQueue(q *Queue, now time.Time) *enginev2.Queue {
 			GPU:    enginev2.QueueResource{Quota: q.GPU.Quota, Limit: q.GPU.Limit, OverQuotaWeight: q.GPU.Weight},
 			CPU:    enginev2.QueueResource{Quota: q.CPU.Quota, Limit: q.CPU.Limit, OverQuotaWeight: q.CPU.Weight},
 			Memory: enginev2.QueueResource{Quota: q.Mem.Quota, Limit: q.Mem.Limit, OverQuotaWeight: q.Mem.Weight},
+		}
+	}
+	for k, v := range q.Raw {
+		f, err := strconv.ParseFloat(v, 64)
+		if err != nil || out.Spec.Resources == nil {
+			continue
+		}
+		var r *enginev2.QueueResource
+		switch {
+		case len(k) > 4 && k[:4] == "gpu.":
+			r = &out.Spec.Resources.GPU
+		case len(k) > 4 && k[:4] == "cpu.":
+			r = &out.Spec.Resources.CPU
+		case len(k) > 4 && k[:4] == "mem.":
+			r = &out.Spec.Resources.Memory
+		}
+		if r == nil {
+			continue
+		}
+		switch k[4:] {
+		case "quota":
+			r.Quota = f
+		case "limit":
+			r.Limit = f
+		case "weight":
+			r.OverQuotaWeight = f
 		}
 	}
 	if q.PreemptMinRuntime != nil {
